@@ -421,7 +421,8 @@ func asciiBody(str []byte) string {
 	var sb strings.Builder
 	in := false
 	for _, ch := range str {
-		if ch < 32 || ch == 127 {
+		if ch < 32 || ch == 127 || ch == '"' {
+			// control characters and the double quote are written as character codes
 			if in {
 				in = false
 				sb.WriteString(`"`)
